@@ -570,51 +570,48 @@ impl<'l, Data> EventLoop<'l, Data> {
                     .inner
                     .pending_action
                     .replace(PostAction::Continue);
-                let mut ret = ret?;
-                if let PostAction::Continue = ret {
-                    ret = pending_action;
-                }
+                // an error (from the source or from applying its post action) is only returned after
+                // the removal check below, so that a source removed from within its callback is always
+                // unregistered
+                let inner = &self.handle.inner;
+                let post_result = ret.and_then(|mut ret| {
+                    if let PostAction::Continue = ret {
+                        ret = pending_action;
+                    }
 
-                match ret {
-                    PostAction::Reregister => {
-                        trace!(
-                            source = reg_token.get_id(),
-                            "Postaction reregister for source"
-                        );
-                        disp.reregister(
-                            &mut self.handle.inner.poll.borrow_mut(),
-                            &mut self
-                                .handle
-                                .inner
-                                .sources_with_additional_lifecycle_events
-                                .borrow_mut(),
-                            &mut TokenFactory::new(reg_token),
-                        )?;
-                    }
-                    PostAction::Disable => {
-                        trace!(
-                            source = reg_token.get_id(),
-                            "Postaction unregister for source"
-                        );
-                        disp.unregister(
-                            &mut self.handle.inner.poll.borrow_mut(),
-                            &mut self
-                                .handle
-                                .inner
-                                .sources_with_additional_lifecycle_events
-                                .borrow_mut(),
-                            RegistrationToken::new(reg_token),
-                        )?;
-                    }
-                    PostAction::Remove => {
-                        trace!(source = reg_token.get_id(), "Postaction remove for source");
-                        if let Ok(entry) = self.handle.inner.sources.borrow_mut().get_mut(reg_token)
-                        {
-                            entry.source = None;
+                    match ret {
+                        PostAction::Reregister => {
+                            trace!(
+                                source = reg_token.get_id(),
+                                "Postaction reregister for source"
+                            );
+                            disp.reregister(
+                                &mut inner.poll.borrow_mut(),
+                                &mut inner.sources_with_additional_lifecycle_events.borrow_mut(),
+                                &mut TokenFactory::new(reg_token),
+                            )?;
                         }
+                        PostAction::Disable => {
+                            trace!(
+                                source = reg_token.get_id(),
+                                "Postaction unregister for source"
+                            );
+                            disp.unregister(
+                                &mut inner.poll.borrow_mut(),
+                                &mut inner.sources_with_additional_lifecycle_events.borrow_mut(),
+                                RegistrationToken::new(reg_token),
+                            )?;
+                        }
+                        PostAction::Remove => {
+                            trace!(source = reg_token.get_id(), "Postaction remove for source");
+                            if let Ok(entry) = inner.sources.borrow_mut().get_mut(reg_token) {
+                                entry.source = None;
+                            }
+                        }
+                        PostAction::Continue => {}
                     }
-                    PostAction::Continue => {}
-                }
+                    Ok(())
+                });
 
                 if self
                     .handle
@@ -640,6 +637,8 @@ impl<'l, Data> EventLoop<'l, Data> {
                         warn!("Failed to unregister source from the polling system: {e:?}",);
                     }
                 }
+
+                post_result?;
             } else {
                 warn!(?reg_token, "Received an event for non-existent source");
             }
